@@ -3,6 +3,8 @@
 # scratch worktree: demo digest on the clean tree, apply patch, demo digest again (must be identical), pinned suite
 # (must still be 40 passed / 1 failed = test_propagate); prints one verdict line; removes the worktree.
 set -u
+# single-threaded numerics: multi-threaded BLAS / XLA reductions are not bitwise reproducible run to run
+export OMP_NUM_THREADS=1 MKL_NUM_THREADS=1 OPENBLAS_NUM_THREADS=1 XLA_FLAGS="--xla_cpu_multi_thread_eigen=false intra_op_parallelism_threads=1"
 patch=$(readlink -f "$1"); demo=$(readlink -f "$2"); tag=$3
 wt=/tmp/bconfirm_$tag
 git -C /repo worktree remove --force "$wt" >/dev/null 2>&1
